@@ -7,7 +7,7 @@
 use crate::catalog::{base_of, Base, KITS};
 use crate::drv::{err_name, iters, Drv, Pd, Pk};
 use crate::explore::{guarded, Caught, LONG};
-use crate::kit::{Kit, V};
+use crate::kit::{Kit, Spec, V};
 use crate::report::{finish, h128, CheckMeta, Report};
 use crate::scen::{dist_fn, ObstSpec, Rig, Scenario};
 use crate::seams::HGoal;
@@ -561,6 +561,69 @@ fn run_fault<K: Kit>(sc0: &Scenario, f: &Fault, rep: &mut Report) {
     }
 }
 
+/// The library's OWN samplers failing (C08: "failures ... are reported as errors rather than panics"): spaces without
+/// bounds (R^n, SE(2), SE(3), a compound with an unbounded box) cannot be sampled uniformly. The
+/// planners run over the REAL space type (no sampler seam) with the real seeded generator; every call must
+/// come back without unwinding, and with goal bias 0 - where the first draw already fails - not with a path.
+fn real_sampler_failures<K: Kit>(kit: &'static str, spec: &Spec, rep: &mut Report) {
+    let base = api_scenario(kit, Pk::Rrt);
+    for pk in Pk::ALL {
+        for bias in [0.0, 0.5, 1.0] {
+            for seed in [0u64, 1, 5] {
+                let mut sc = api_scenario(kit, pk);
+                sc.spec = spec.clone();
+                sc.params.bias = bias;
+                sc.params.seed = Some(seed);
+                rep.count("evaluations", 1);
+                rep.count("real_sampler_failure_cases", 1);
+                let r = guarded(|| {
+                    let rig = Rig::<K>::new(&base, false);
+                    rig.goal_mode(crate::seams::GoalMode::Cycle);
+                    let mut d = crate::drv::RawDrv::<K>::new(&sc.params);
+                    let pd = Arc::new(crate::drv::RawPd::<K> { space: Arc::new(K::build(&sc.spec)), start_states: vec![rig.start.clone()], goal: rig.goal.clone() });
+                    d.setup(pd, rig.world.clone());
+                    let mut results: Vec<String> = Vec::new();
+                    if pk == Pk::Prm {
+                        d.set_prm_timeout(crate::drv::iters_secs(8));
+                        oxmpl::verif::clock_reset(1_000_000);
+                        results.push(match d.construct_roadmap() {
+                            Ok(()) => "Ok".into(),
+                            Err(e) => err_name(&e).into(),
+                        });
+                    }
+                    for _ in 0..2 {
+                        oxmpl::verif::clock_reset(1_000_000);
+                        results.push(match d.solve(iters(8)) {
+                            Ok(_) => "Ok".into(),
+                            Err(e) => err_name(&e).into(),
+                        });
+                    }
+                    results
+                });
+                let name = pk.name();
+                let class = format!("unbounded-{kit}/bias{bias}");
+                match r {
+                    Err(Caught::Panic(msg)) => {
+                        let file = msg.rsplit(" @ ").next().unwrap_or("").rsplit('/').next().unwrap_or("").split(':').next().unwrap_or("").to_string();
+                        rep.violate(format!("C08|{name}|fault-panic|library-sampler-error|{file}"), format!("{class}: the space's own sampler cannot deliver and a planner call unwound instead of returning an error: {msg}"), || json!({"kind": "real-sampler-failure", "prop": "C08", "space": spec.json(), "planner": name, "goal_bias": bias, "seed": seed, "panic": msg}));
+                    }
+                    Err(Caught::WorkCap(n)) => rep.violate(format!("C08|{name}|call-does-not-return|library-sampler-error"), format!("{class}: a planner call made {n} callbacks without returning"), || json!({"kind": "real-sampler-failure", "prop": "C08", "space": spec.json(), "planner": name, "goal_bias": bias, "seed": seed})),
+                    Err(Caught::Harness(m)) => rep.engine_error(format!("harness panic in real-sampler-failure case {class}/{name}: {m}")),
+                    Err(_) => rep.engine_error(format!("real-sampler-failure case {class}/{name} could not run")),
+                    Ok(results) => {
+                        rep.count("real_sampler_failure_cases_returned", 1);
+                        let solves = if pk == Pk::Prm { &results[1..] } else { &results[..] };
+                        if bias == 0.0 && solves.iter().any(|r| r == "Ok") {
+                            rep.violate(format!("C08|{name}|fault-swallowed|library-sampler-error"), format!("{class}: a path was returned although not a single state can be sampled (results {results:?})"), || json!({"kind": "real-sampler-failure", "prop": "C08", "space": spec.json(), "planner": name, "goal_bias": bias, "seed": seed, "results": results}));
+                        }
+                        rep.distinct.insert(h128(&format!("{class}{name}{seed}{results:?}").bytes().map(|b| b as u64).collect::<Vec<_>>()));
+                    }
+                }
+            }
+        }
+    }
+}
+
 /// Longest call sequence explored (tree planners: 5-letter menu; PRM: 8-letter menu). PRM needs 5
 /// calls for setup, construct, solve, set_problem_definition, solve.
 fn seq_bounds(thorough: bool) -> (usize, usize) {
@@ -659,6 +722,13 @@ pub fn explore(prop: &'static str, tier: &'static str) -> Report {
                 a
             });
         rep.merge(fr);
+        // the library's own samplers failing, on the real space types
+        use crate::kit::{Cmp, Rv, Se2, Se3};
+        let rv = Spec::Rv { dim: 2, bounds: None, frac: None };
+        real_sampler_failures::<Rv>("RealVector", &rv, &mut rep);
+        real_sampler_failures::<Se2>("SE2", &Spec::Se2 { weight: 0.5, bounds: None }, &mut rep);
+        real_sampler_failures::<Se3>("SE3", &Spec::Se3 { weight: 0.5, bounds: None }, &mut rep);
+        real_sampler_failures::<Cmp>("Compound", &Spec::Cmp { parts: vec![rv.clone(), Spec::So2 { bounds: None, frac: None }], weights: vec![1.0, 0.5] }, &mut rep);
     }
     rep
 }
